@@ -97,7 +97,9 @@ def build_graph(ranges):
         if eq in (1, 2):
             t = NpuWeightTensor(name)
             # hash((.., -1)) == hash((.., -2)) in CPython: unequal configurations with equal hashes
-            t.weight_compression_config = WeightCompressionConfig(0, 16, 16, (1, 1), -eq)
+            # built by field name so that further key fields of the working tree's namedtuple get a neutral default
+            vals = {"npu_block_type": 0, "ofm_block_depth": 16, "ofm_depth_step": 16, "dilation": (1, 1), "weight_value_id": -eq}
+            t.weight_compression_config = WeightCompressionConfig(*[vals.get(f, 0) for f in WeightCompressionConfig._fields])
             t.scale_compression_config = ScaleCompressionConfig(7, 1.0, 1.0)
             t.name = name
         elif eq == 3:
